@@ -162,7 +162,9 @@ def run(ctx):
                 probs.append("stripping the names by hand and using -p0 changes the result: %s / %s" % (
                     [x[:80] for x in a if x not in b][:3], [x[:80] for x in b if x not in a][:3]))
         # 3. threads and split pushes
-        if cfg["threads"] == 1 and rng.random() < 0.5:
+        from props.C06 import file_patches
+        if cfg["threads"] == 1 and rng.random() < 0.5 and file_patches(ctx, w) is not None:
+            # (a series with a patch that does not parse is refused as a whole by the parallel driver, C06/C17)
             c4 = dict(cfg)
             c4["threads"] = 4
             r4, _, _ = l3gen.run_real(ctx.binary, w, c4)
